@@ -299,22 +299,34 @@ class C20(Prop):
 
         class Fake:
             def shuffle(_, l):
-                assert sorted(l) == sorted(DECK), "shuffle called on something that is not the deck"
+                assert sorted(l) == sorted(DECK), "the list handed to shuffle is not a fresh copy of the 52-card deck"
                 l[:] = d
         self.du.random = Fake()
         out = {}
         try:
             h = case["helper"]
             if h == "deck":
-                out["deck"] = list(self.du.random_deck())
+                dk = self.du.random_deck()
+                raw = [dk]
+                out["deck"] = list(dk)
             elif h == "hands":
                 rest, hands = self.pu.deal_random_hands(case["nh"], case["nc"])
+                raw = [rest, hands]
                 out["rest"] = list(rest); out["hands"] = [list(x) for x in hands]
             else:
                 g = self.gu.new_game(case["n"]) if h == "gin" else (self.ru.deal_new_game() if h == "rummy" else self.ku.deal_new_game())
+                raw = g
                 out = {k: list(v) for k, v in g.items()}
+            # the caller owns what a dealing helper returns: draw from / empty the returned containers afterwards;
+            # later deals in this process must not be affected (no aliasing of a shared deck)
+            for v in list(raw.values()) if isinstance(raw, dict) else raw:
+                if isinstance(v, list):
+                    for x in v:
+                        if isinstance(x, list):
+                            del x[:]
+                    del v[:max(1, len(v) // 2)]
         except Exception as e:
-            out = {"exc": type(e).__name__}
+            out = {"exc": type(e).__name__ + ": " + str(e)[:80]}
         out["const_ok"] = self.snapshot() == self.const
         return out
 
